@@ -326,7 +326,20 @@ func (a *List) M__rmul__(other Object) (Object, error) {
 }
 
 func (a *List) M__imul__(other Object) (Object, error) {
-	return a.M__mul__(other)
+	if b, ok := convertToInt(other); ok {
+		// repeat the items in place so that every reference to the list sees it
+		m := len(a.Items)
+		n := int(b) * m
+		if n <= 0 {
+			a.Items = nil
+			return a, nil
+		}
+		for len(a.Items) < n {
+			a.Items = append(a.Items, a.Items[:m]...)
+		}
+		return a, nil
+	}
+	return NotImplemented, nil
 }
 
 // Check interface is satisfied
